@@ -8,3 +8,12 @@ require (
 )
 
 replace github.com/marekgalovic/anndb => /repo
+
+require (
+	github.com/sirupsen/logrus v1.5.0
+	github.com/satori/go.uuid v1.2.0
+	github.com/golang/protobuf v1.3.5
+	github.com/coreos/etcd v3.3.19+incompatible
+	github.com/dgraph-io/badger/v2 v2.0.3
+	google.golang.org/grpc v1.28.0
+)
